@@ -180,6 +180,9 @@ func New(prog *ssa.Program, opt Options) (*Interp, error) {
 	}
 	if it.opt.TimeoutMs == 0 {
 		it.opt.TimeoutMs = 10000
+		if it.opt.Thorough {
+			it.opt.TimeoutMs = 60000 // per solver query
+		}
 		if s := os.Getenv("VERIF_QUERY_MS"); s != "" {
 			fmt.Sscan(s, &it.opt.TimeoutMs)
 		}
